@@ -179,14 +179,14 @@ PROPS["C09"] = {
 }
 
 RULES["C10"] = (_STREAM + "each stream is delivered once in full-buffer reads to the sequential workflow (reference) and once through a chunking reader to the workflow under test (sequential or parallel; SingleDetect too): "
-                "plans {all 1-byte reads, fixed prime size 2..8191, random sizes in [1, sampleBytes+7], sizes sampleBytes+-1/-7/+13 that straddle every sample boundary, full reads with one short read per cycle}; a quarter of the workflow cases instead use a standard *bytes.Reader or *os.File (which also implement io.ReaderAt / io.Seeker) positioned behind a header of zero bytes. "
+                "plans {all 1-byte reads, fixed prime size 2..8191, random sizes in [1, sampleBytes+7], sizes sampleBytes+-1/-7/+13 that straddle every sample boundary, full reads with one short read per cycle, a first read that leaves 'j buffers of 2^p bytes plus a tail below 600 bytes' missing followed by full reads}; a quarter of the workflow cases instead use a standard *bytes.Reader or *os.File (which also implement io.ReaderAt / io.Seeker) positioned behind a header of zero bytes. "
                 "oracle: equal verdict and, when false, the same named item; SingleDetect consumes exactly numByte. non-trivial: the full-read verdict is true (stale or zero bytes would flip it) or the named item is not item 1. "
                 "distinct: hash of the case JSON.")
 PROPS["C10"] = {
     "level": "exploration",
     "quick": shards(5, "TestC10", 120, mode="period", floor=40) + [S("TestC10", 400, mode="single", floor=100)]
              + [S("TestC10", 1, mode="poweron", env={"VERIF_FAST": 1, "VERIF_TARGETS": "one-bad"}, floor=1, weight=4), S("TestC10", 1, mode="poweron", env={"VERIF_FAST": 0, "VERIF_TARGETS": "one-bad"}, floor=1, weight=2),
-                S("TestC10", 1, mode="poweron", env={"VERIF_FAST": 0, "VERIF_TARGETS": "one-bad"}, floor=1, weight=2), S("TestC10", 1, mode="factory", env={"VERIF_FAST": 1, "VERIF_TARGETS": "one-bad"}, floor=1, weight=4)],
+                S("TestC10", 1, mode="poweron", env={"VERIF_FAST": 1, "VERIF_TARGETS": "one-bad", "VERIF_PLAN": "pow2-remainder"}, floor=1, weight=4), S("TestC10", 1, mode="factory", env={"VERIF_FAST": 1, "VERIF_TARGETS": "one-bad"}, floor=1, weight=4)],
     "thorough": shards(6, "TestC10", 2500, mode="period", floor=600) + [S("TestC10", 5000, mode="single", floor=1000)]
              + [S("TestC10", 10, mode="poweron", env={"VERIF_FAST": f}, floor=3, weight=3, timeout=3400) for f in (0, 1, 1)]
              + [S("TestC10", 4, mode="factory", env={"VERIF_FAST": f}, floor=2, weight=3, timeout=3400) for f in (0, 1)],
